@@ -1508,7 +1508,7 @@ impl<'t, 'b> G<'t, 'b> {
                     let b = Stmt::Let { id: self.id(), var: VarRef::Scoped { id: self.id(), scope: scope2, name: n }, value: Expr::Int(self.t.choose(2) as u32 + 1, 0) };
                     self.fault_pair = Some((a.id(), b.id()));
                     body.push(a);
-                    if self.t.chance(1, 2) {
+                    if self.t.chance(3, 4) {
                         // the same name on another node in between (the two conflicting
                         // definitions are then not adjacent among the definitions of the name)
                         if let Some((other_scope, _)) = self.syn_expr(false) {
